@@ -677,7 +677,8 @@ Eof == /\ ~st.fatal /\ st.phase # "done"
 Cands == IF prof = "values" /\ st.phase = "content" THEN SmallValues
          ELSE IF prof = "values" /\ st.phase = "misc" THEN {CM(<<"LF">>)}
          ELSE Alphabet(prof)
-Next == (~st.fatal /\ st.phase # "done" /\ Len(toks) < MaxLen /\ \E t \in Cands : Step(t)) \/ Eof
+Extend == ~st.fatal /\ st.phase # "done" /\ Len(toks) < MaxLen /\ \E t \in Cands : Step(t)
+Next == Extend \/ Eof
 Spec == Init /\ [][Next]_vars
 
 \* canonical completion of a prefix: close the open elements; supply a root when still in the prolog
